@@ -51,6 +51,7 @@ func (m *Machine) strAt(s StrV, i int) *sym.Term {
 	}
 	return s.B[i]
 }
+
 type StructV []Value
 type ArrayV []Value
 type TupleV []Value
